@@ -132,6 +132,24 @@ func (P *Prog) verifyFunctionCase(fn *ssa.Function, ct *Contract, splitParam str
 		for _, ap := range ct.Applies {
 			ex.applyLemma(fr, out, ap, val)
 		}
+		// ghost assignments at exit (all right-hand sides are evaluated first)
+		if len(ct.GhostSets) > 0 {
+			var vals []*Term
+			for _, gs := range ct.GhostSets {
+				env := ex.specEnv(fr, out, ex.entry, true)
+				env.useLocals = false
+				ex.bindResults(env, fn.Signature, val)
+				sc, ok := env.eval(gs.Expr).(Sc)
+				if !ok || sc.T.Sort != IntSort {
+					specErr("ghost_set %s: the value must be an int", gs.Name)
+				}
+				vals = append(vals, sc.T)
+			}
+			for i, gs := range ct.GhostSets {
+				out.logWrite(&WriteRec{Kind: "global", Key: "ghost." + gs.Name})
+				out.setHeap("G|ghost."+gs.Name+"|", vals[i])
+			}
+		}
 		for i, en := range ct.Ensures {
 			env := ex.specEnv(fr, out, ex.entry, false)
 			env.useLocals = false
@@ -385,7 +403,7 @@ func (ex *Exec) frameRelation(mods []modSpec, name string, cur *Term, r, k *Term
 	parts := strings.SplitN(name, "|", 3)
 	fam, key, leaf := parts[0], parts[1], parts[2]
 	if but, ok := butFor(mods); ok && !strings.HasPrefix(name, "G|ghost") {
-		if fam != "H" || !but[key] {
+		if !((fam == "H" || fam == "E") && (but[key] || but[strings.TrimPrefix(key, "*")])) {
 			return False, True, false // may change arbitrarily
 		}
 	}
@@ -539,7 +557,8 @@ func (ex *Exec) frameObligations(fr *Frame, out *State, ct *Contract, kind strin
 			if isFreshRef(w.Ref) {
 				continue
 			}
-			cov := []*Term{Not(ULt(w.Ref, entry.Alloc))}
+			// (a callee's modifies clause evaluated on a nil pointer designates no object)
+			cov := []*Term{Not(ULt(w.Ref, entry.Alloc)), Eq(w.Ref, BVi(0, 32))}
 			for _, m := range mods {
 				if m.kind == "structfamily" && m.fam == w.Key && underPrefix(w.Prefix, m.prefix) {
 					cov = append(cov, True)
@@ -599,6 +618,10 @@ func (ex *Exec) frameObligations(fr *Frame, out *State, ct *Contract, kind strin
 			switch w.Kind {
 			case "field", "structfamily":
 				if !but[w.Key] {
+					goal = True
+				}
+			case "elem", "range", "elemfamily":
+				if !but[w.Key] && !but[strings.TrimPrefix(w.Key, "*")] {
 					goal = True
 				}
 			case "everything":
@@ -662,8 +685,11 @@ func (ex *Exec) assumeLoopFrame(st *State, name string, cur *Term) {
 	}
 	fam := name[:1]
 	g := st.G
-	if _, ok := butFor(mods); ok && fam != "H" && !strings.HasPrefix(name, "G|ghost") {
-		return
+	if but, ok := butFor(mods); ok && !strings.HasPrefix(name, "G|ghost") {
+		key := strings.SplitN(name, "|", 3)[1]
+		if !((fam == "H" || fam == "E") && (but[key] || but[strings.TrimPrefix(key, "*")])) {
+			return
+		}
 	}
 	switch fam {
 	case "G":
